@@ -39,7 +39,9 @@ JudgedAll   == ~R.hd /\ R.val_out = "ok" /\ R.val_err = "ok"
 
 C01ok == Crashed \/ ((JudgedMatch \/ ~HasDiff) => InLang)
 C02ok == ~Crashed /\ ConserveOf(out) /\ R.bytes_ok /\ (R.hd <=> HasDiff)
-C03ok == Crashed \/ (Det /\ InLang => JudgedAll /\ ~HasDiff)
+\* "... reports a match EXACTLY when the output is described": both directions under determinism
+C03ok == Crashed \/ (Det => /\ (InLang => JudgedAll /\ ~HasDiff)
+                            /\ ((JudgedMatch \/ ~HasDiff) => InLang))
 
 Report(p, ok) == ok \/ PrintT(<<"VERDICT", p, R.id>>)
 
